@@ -1,6 +1,7 @@
 SPECIFICATION Spec
 CONSTANTS
   Vals <- Pos4
+  OnlyReversals = FALSE
   MaxLen = 6
   Scale = 1
   LawId = "lin"
